@@ -47,6 +47,11 @@ func (c *Chan[T]) Recv2() (T, bool) {
 		v, ok := <-c.real
 		return v, ok
 	}
+	if c.cap == 0 {
+		// on an unbuffered channel it matters when the receiver arrives (a non-blocking send
+		// only succeeds if somebody is already waiting): arriving is a step of its own
+		Yield("recv-arrive")
+	}
 	c.recvWaiting++
 	Block("recv", func() bool { return len(c.buf) > 0 || c.closed })
 	c.recvWaiting--
